@@ -323,6 +323,35 @@ fn do_contend(f: &[&str]) -> String {
     format!("{} | alone={}", out.join(" | "), msgs.join(","))
 }
 
+#[cfg(feature = "regex")]
+fn do_like(f: &[&str]) -> String {
+    // like <xpattern> <xtext>: the six built-in Like impls on (text, pattern), next to the answer of the regex crate
+    // itself (compiled here, independently of the crate under test): match / nomatch / invalid
+    use assert_struct::Like;
+    let pat = unhex_s(f[1]);
+    let text = unhex_s(f[2]);
+    let oracle = match regex::Regex::new(&pat) {
+        Ok(re) => if re.is_match(&text) { "match" } else { "nomatch" },
+        Err(_) => "invalid",
+    };
+    let s: String = text.clone();
+    let r: &str = &text;
+    let mut out = Vec::new();
+    out.push(<String as Like<&str>>::like(&s, &pat.as_str()));
+    out.push(<String as Like<String>>::like(&s, &pat));
+    out.push(<&str as Like<&str>>::like(&r, &pat.as_str()));
+    out.push(<&str as Like<String>>::like(&r, &pat));
+    if let Ok(re) = assert_struct::__macro_support::Regex::new(&pat) {
+        out.push(<String as Like<assert_struct::__macro_support::Regex>>::like(&s, &re));
+        out.push(<&str as Like<assert_struct::__macro_support::Regex>>::like(&r, &re));
+    }
+    format!("oracle={} impls={}", oracle, out.iter().map(|b| if *b { "1" } else { "0" }).collect::<String>())
+}
+#[cfg(not(feature = "regex"))]
+fn do_like(_f: &[&str]) -> String {
+    "no-regex-feature".into()
+}
+
 fn do_crossdir(f: &[&str]) -> String {
     // crossdir <seq|par> <rounds> (<xdir> <xfile>)...: failures located by (manifest dir, file!() string) pairs that may
     // share the file!() string across different manifest dirs (two packages both failing in "src/lib.rs").
@@ -454,6 +483,7 @@ fn main() {
             "contend" => do_contend(&f),
             "colour" => do_colour(&f),
             "crossdir" => do_crossdir(&f),
+            "like" => do_like(&f),
             "c17file" => {
                 // c17file <xname> <xcontent|none>: (re)create or remove a file under RT_TMP/c17
                 let p = c17_dir().join(unhex_s(f[1]));
